@@ -18,25 +18,37 @@ Section WithNum.
 Context {N : NumOps}.
 Local Notation K := (K N).
 
+(** [p_bf] is ghost state (never read by any operation, not stored, not compared with the code):
+    "this promise's clearance date has been brought forward to let the next trip start". *)
 Record promise := mkPromise {
-  p_ts : Z; p_te : Z; p_dist : K; p_trav : K; p_clear : Z; p_stack : Z; p_carried : K }.
+  p_ts : Z; p_te : Z; p_dist : K; p_trav : K; p_clear : Z; p_stack : Z; p_carried : K; p_bf : bool }.
 Definition empty_promise : promise :=
-  {| p_ts := 0; p_te := 0; p_dist := k0 N; p_trav := k0 N; p_clear := 0; p_stack := 0; p_carried := k0 N |}.
+  {| p_ts := 0; p_te := 0; p_dist := k0 N; p_trav := k0 N; p_clear := 0; p_stack := 0; p_carried := k0 N; p_bf := false |}.
+(** a clearance date set by prediction (not brought forward) *)
 Definition set_clear (p : promise) (c : Z) : promise :=
   {| p_ts := p_ts p; p_te := p_te p; p_dist := p_dist p; p_trav := p_trav p; p_clear := c;
-     p_stack := p_stack p; p_carried := p_carried p |}.
+     p_stack := p_stack p; p_carried := p_carried p; p_bf := false |}.
+(** a clearance date brought forward to the start of the next trip *)
+Definition set_clear_bf (p : promise) (c : Z) : promise :=
+  {| p_ts := p_ts p; p_te := p_te p; p_dist := p_dist p; p_trav := p_trav p; p_clear := c;
+     p_stack := p_stack p; p_carried := p_carried p; p_bf := true |}.
 Definition set_stack (p : promise) (s : Z) : promise :=
   {| p_ts := p_ts p; p_te := p_te p; p_dist := p_dist p; p_trav := p_trav p; p_clear := p_clear p;
-     p_stack := s; p_carried := p_carried p |}.
+     p_stack := s; p_carried := p_carried p; p_bf := p_bf p |}.
 Definition set_carried (p : promise) (c : K) : promise :=
   {| p_ts := p_ts p; p_te := p_te p; p_dist := p_dist p; p_trav := p_trav p; p_clear := p_clear p;
-     p_stack := p_stack p; p_carried := c |}.
+     p_stack := p_stack p; p_carried := c; p_bf := p_bf p |}.
 Definition tobackfill (p : promise) : K := kadd N (p_dist p) (p_carried p).
 
 Definition book := list promise.                    (* 10 entries, newest trip first *)
 Definition empty_book : book := repeat empty_promise MaxPromises.
 Definition getp (b : book) (i : nat) : promise := nth i b empty_promise.
-Definition setp (b : book) (i : nat) (p : promise) : book := firstn i b ++ p :: skipn (S i) b.
+Fixpoint setp (b : book) (i : nat) (p : promise) : book :=     (* entries[i] = p *)
+  match b, i with
+  | [], _ => []
+  | _ :: r, O => p :: r
+  | x :: r, S j => x :: setp r j p
+  end.
 
 (** what the code asks of a predictor; [None] = the call returned an error *)
 Record predictor := mkPred {
@@ -53,7 +65,7 @@ Record proposal := mkProposal { pp_entries : book; pp_version : Z }.
 Definition update_stack_entry (b : book) (i : nat) (pr : predictor) (max_stack : Z) : book + perr :=
   if Nat.eqb i 0 || Nat.ltb (MaxPromises - 1) i then inr EInvalidArgument else
   let cd := to_epoch_days (p_ts (getp b (i - 1))) false in
-  let b1 := setp b i (set_clear (getp b i) (days_to_time cd)) in
+  let b1 := setp b i (set_clear_bf (getp b i) (days_to_time cd)) in
   let chk := if Nat.ltb i (MaxPromises - 1)
              then if max_stack <=? p_stack (getp b1 (i + 1)) then None else Some (p_stack (getp b1 (i + 1)))
              else Some 0 in
@@ -102,7 +114,7 @@ Definition propose (b : book) (ts te : Z) (distance travelled : K) (now : Z) (pr
   let clearance := match pr_predict pr distance (to_epoch_days te true) with
                    | Some c => c | None => to_epoch_days te false + 1 end in
   let p := {| p_ts := ts; p_te := te; p_dist := distance; p_trav := travelled;
-              p_clear := days_to_time clearance; p_stack := 0; p_carried := k0 N |} in
+              p_clear := days_to_time clearance; p_stack := 0; p_carried := k0 N; p_bf := false |} in
   let i := search MaxPromises (fun i => p_ts (getp b i) <=? ts) in
   if Nat.leb MaxPromises i then inr EInternal else
   if ts <=? p_te (getp b i) then inr EOverlapPrev else
